@@ -65,7 +65,7 @@ class Checker:
 
     def floor(self, name, found, minimum):
         self.floors.append({"name": name, "found": found, "min": minimum})
-        if found < minimum:
+        if found < minimum and not self.violations:
             raise Undecided("instance floor not met for %s: found %d < %d confirmed by hand "
                             "(a rule matching too few sites must not pass vacuously)" % (name, found, minimum))
 
